@@ -22,7 +22,7 @@ type verifDecomp struct {
 var errVerif = errors.New("verif: model error")
 
 func (d *verifDecomp) Reader(r io.Reader) (io.ReadCloser, error) { return nil, errVerif }
-func (d *verifDecomp) FooterSize() int64                       { return d.fsize }
+func (d *verifDecomp) FooterSize() int64                         { return d.fsize }
 func (d *verifDecomp) ParseFooter(p []byte) (int64, int64, int64, error) {
 	if d.fail {
 		return 0, 0, 0, errVerif
@@ -30,7 +30,7 @@ func (d *verifDecomp) ParseFooter(p []byte) (int64, int64, int64, error) {
 	return d.payload, d.off, d.size, nil
 }
 func (d *verifDecomp) ParseTOC(r io.Reader) (*JTOC, digest.Digest, error) { return nil, "", errVerif }
-func (d *verifDecomp) DecompressTOC(r io.Reader) (io.ReadCloser, error)    { return nil, errVerif }
+func (d *verifDecomp) DecompressTOC(r io.Reader) (io.ReadCloser, error)   { return nil, errVerif }
 
 type verifZeroReaderAt struct{}
 
